@@ -36,12 +36,20 @@ var longMethod = "M" + strings.Repeat("ethod", 20) // 101 bytes, mixed case
 
 var longHeader = "X-" + strings.Repeat("Long-Name-", 9) + "End" // 95 bytes, mixed case
 
-var methodAtoms = []string{longMethod, "*", "GET", "POST", "HEAD", "PUT", "put", "Put", "DELETE", "delete", "PATCH", "patch", "PURGE", "OPTIONS", "options", "Foo", "QUERY", "get", "pOsT"}
+// names around and beyond the 8-bit boundary (255, 256, 258 and 305 bytes); hugeHeader sorts before most other names
+var (
+	hugeHeader  = "A-" + strings.Repeat("Huge-Header-Name-", 17) + "End" // 294 bytes
+	hugeHeader2 = "X-" + strings.Repeat("y", 253)                         // 255 bytes
+	hugeHeader3 = "x-" + strings.Repeat("z", 254)                         // 256 bytes
+	hugeMethod  = "H" + strings.Repeat("UGEMETHOD", 30)                   // 271 bytes
+)
 
-var reqHdrAtoms = []string{longHeader, strings.ToLower(longHeader[:64]), longHeader[:65], "*", "Authorization", "authorization", "AUTHORIZATION", "Content-Type", "content-type", "X-Foo", "x-foo", "X-Bar", "x-a", "x-ab", "Accept", "X-Requested-With", "foo", "bar", "x-abc",
+var methodAtoms = []string{longMethod, hugeMethod, "*", "GET", "POST", "HEAD", "PUT", "put", "Put", "DELETE", "delete", "PATCH", "patch", "PURGE", "OPTIONS", "options", "Foo", "QUERY", "get", "pOsT"}
+
+var reqHdrAtoms = []string{longHeader, hugeHeader, hugeHeader2, hugeHeader3, strings.ToLower(longHeader[:64]), longHeader[:65], "*", "Authorization", "authorization", "AUTHORIZATION", "Content-Type", "content-type", "X-Foo", "x-foo", "X-Bar", "x-a", "x-ab", "Accept", "X-Requested-With", "foo", "bar", "x-abc",
 	"X-H01", "x-h02", "X-H03", "x-h04", "X-H05", "x-h06", "X-H07", "x-h08", "X-H09", "x-h10", "X-H11", "x-h12", "x_under", "x.dot", "x+plus", "a^b", "x#1", "x!", "if-none-match", "range"}
 
-var resHdrAtoms = []string{longHeader, longHeader[:65], "X-Resp", "x-resp", "Content-Type", "Cache-Control", "X-Other", "ETag", "Content-Length", "x-a", "X-B", "Location"}
+var resHdrAtoms = []string{longHeader, hugeHeader, longHeader[:65], "X-Resp", "x-resp", "Content-Type", "Cache-Control", "X-Other", "ETag", "Content-Length", "x-a", "X-B", "Location"}
 
 // genOriginFamily draws 2-6 patterns from one family of nested hosts
 // (example.com, api.example.com, v2.api.example.com, x.v2.api.example.com),
@@ -275,6 +283,14 @@ func Suite(c Cfg) []Req {
 	origins = append(origins, allowed...)
 	origins = append(origins, near...)
 	origins = append(origins, "null", "https://unrelated.example", "HTTPS://EXAMPLE.COM", "https://example.com/", "")
+	// the text of (up to three) configured patterns that contain a wildcard: not an origin, hence never allowed
+	nw := 0
+	for _, o := range c.Origins {
+		if strings.Contains(string(o), "*") && o != "*" && nw < 3 {
+			origins = append(origins, string(o))
+			nw++
+		}
+	}
 	var okOrigin string
 	if len(allowed) > 0 {
 		okOrigin = allowed[0]
